@@ -267,6 +267,23 @@ def run(ck: Check):
             if check_rules(ck, det, cfg, xs, out) and n <= 300:
                 cases.append((det, cfg, xs, None))
                 impl.append(out)
+        # the error stream handed over as narrow NumPy integers, long enough for more than 255 errors: the rule is
+        # about the VALUES (an accumulator in the stream's own dtype would wrap at 128 / 256)
+        import numpy as _np
+
+        for ty in (_np.uint8, _np.int8):
+            for _ in range(2 if not thorough else 6):
+                cfg = det.gen_cfg(rng)
+                n = rng.choice([600, 800])
+                k = rng.randrange(n // 3, 2 * n // 3)
+                xs = [int(rng.random() < (0.45 if i < k else 0.6)) for i in range(n)]
+                out, exc, _ = run_impl(det, cfg, [ty(v) for v in xs])
+                if exc is not None:
+                    ck.violation(dict(clause="raises", detector=nm, input_type=ty.__name__), dict(detector=nm, config=cfg, n=n, input_type=ty.__name__, error=repr(exc), head=xs[:12]))
+                    continue
+                ck.case(dict(detector=nm, config=cfg, n=n, input_type=ty.__name__, errors=sum(xs)), nontrivial=any(o[0] or o[1] for o in out), key=repr((nm, cfg, xs, ty.__name__)))
+                ck.count("typed_streams")
+                check_rules(ck, det, cfg, xs, out)
         # several concepts separated by reset() (what a user does on drift): the rule restarts at each reset
         for _ in range(40 if not thorough else 300):
             cfg = det.gen_cfg(rng)
